@@ -2,15 +2,17 @@
 # usage: check.sh <property id> quick|thorough|replay [path]   |   check.sh setup
 # Rebuilds the controller and (through it) the simulation worker against /repo's
 # current working tree with the "verif" hooks on, then runs the check.
-cd /verif/sim || exit 2
+HERE=$(cd "$(dirname "$0")" && pwd)
+export VERIF_DIR="$HERE"
+cd "$HERE/sim" || exit 2
 export GOFLAGS=-mod=mod GOPROXY=off GOSUMDB=off GOTOOLCHAIN=local
-mkdir -p /verif/.bin /verif/.cache /verif/replays /verif/evidence
+mkdir -p "$HERE/.bin" "$HERE/.cache" "$HERE/replays" "$HERE/evidence"
 if [ "$1" = "setup" ]; then
-  go build -o /verif/.bin/verifctl ./cmd/verifctl || exit 2
-  go build -tags verif -o /verif/.bin/sim ./cmd/sim || exit 2
-  go build -race -tags verif -o /verif/.bin/sim-race ./cmd/sim || exit 2
+  go build -o "$HERE/.bin/verifctl" ./cmd/verifctl || exit 2
+  go build -tags verif -o "$HERE/.bin/sim" ./cmd/sim || exit 2
+  go build -race -tags verif -o "$HERE/.bin/sim-race" ./cmd/sim || exit 2
   echo "setup ok"
   exit 0
 fi
-go build -o /verif/.bin/verifctl ./cmd/verifctl || { echo "controller build failed" >&2; exit 2; }
-exec /verif/.bin/verifctl "$@"
+go build -o "$HERE/.bin/verifctl" ./cmd/verifctl || { echo "controller build failed" >&2; exit 2; }
+exec "$HERE/.bin/verifctl" "$@"
